@@ -288,6 +288,9 @@ fn run_e1_property(id: &str, thorough: bool, ev: &mut Evidence, t0: Instant) {
         ev.families.push(r);
     }
     if id == "C04" && !report::stopped() {
+        let r = paths::run_scripts(id, checks, paths::DECIDED_NAME, &paths::decided_scripts());
+        eprintln!("  {} : states={} transitions={} {:.1}s {} {}", r.family, r.stats.states, r.stats.transitions, r.wall_s, if r.complete { "complete" } else { "INCOMPLETE" }, r.note);
+        ev.families.push(r);
         // C04 is decided at turn starts: dense corner / edge jams are evaluated at the root only (no expansion)
         let mut dense: Vec<families::Family> = vec![
             families::fd(2, 4, vec![(0, 0), (6, 0), (0, 4), (6, 4)], 4, "the 4 corners"),
